@@ -25,7 +25,7 @@ METHODS = gen.ALL_METHODS + ["psd", "psd"]
 
 @st.composite
 def strategy(draw):
-    spec = draw(gen.processing_spec(n_max=400, methods=METHODS, fft_choices=(None, None, 2 ** 15, "record-length")))
+    spec = draw(gen.processing_spec(n_max=400, methods=METHODS, fft_choices=(None, None, 2 ** 15, "record-length", 2 ** 16)))
     m = spec["method"]
     single_dt = m in ("diffuse_field", "psd") or draw(st.booleans())
     nrec = draw(st.integers(1, 4))
